@@ -102,13 +102,23 @@ def strategy(tier):
         st.builds(lambda i, o: ["unwatch", i, o], st.integers(0, 2000), st.integers(0, N_OBS - 1)),
         st.builds(lambda i: ["unwatch_all", i], st.integers(0, 2000)),
     )
+    # macros (flattened into the op list): observer churn on ONE item followed by a change of that item - dropping every observer
+    # and registering the same callable again, unwatch + re-watch, double registration after a drop
+    bits = st.lists(st.integers(0, 15), min_size=1, max_size=3)
+    churn = st.one_of(
+        st.builds(lambda i, o, b: [["unwatch_all", i], ["watch", i, o], ["flip", i, b]], st.integers(0, 2000), st.integers(0, N_OBS - 1), bits),
+        st.builds(lambda i, o, b: [["watch", i, o], ["unwatch", i, o], ["watch", i, o], ["flip", i, b]], st.integers(0, 2000), st.integers(1, N_OBS - 1), bits),
+        st.builds(lambda i, o, b: [["unwatch_all", i], ["watch2", i, o], ["flip", i, b], ["unwatch", i, o], ["flip", i, b]],
+                  st.integers(0, 2000), st.integers(0, N_OBS - 1), bits),
+    )
+    item = st.one_of(ops.map(lambda o: [o]), ops.map(lambda o: [o]), ops.map(lambda o: [o]), ops.map(lambda o: [o]), churn)
     return st.builds(
-        lambda ci, cls, seed, fill, o: {"combo": ci, "cls": cls, "seed": seed, "fill": fill, "ops": o},
+        lambda ci, cls, seed, fill, o: {"combo": ci, "cls": cls, "seed": seed, "fill": fill, "ops": [x for grp in o for x in grp][:14]},
         st.integers(0, ncombo - 1),
         st.sampled_from(["sync", "async"]),
         st.integers(0, 2**32),
         st.sampled_from(["rnd", "rnd", "zero", "ones"]),
-        st.lists(ops, min_size=1, max_size=10),
+        st.lists(item, min_size=1, max_size=10),
     )
 
 
